@@ -172,15 +172,24 @@ impl Socket for UdpSocketImpl {
     fn local_addr(&self) -> std::io::Result<SocketAddr> { self.socket.local_addr() }
 }
 
+#[cfg(not(gamedig_verif))]
 #[cfg(not(feature = "packet_capture"))]
 pub type UdpSocket = UdpSocketImpl;
+#[cfg(not(gamedig_verif))]
 #[cfg(not(feature = "packet_capture"))]
 pub type TcpSocket = TcpSocketImpl;
 
+#[cfg(not(gamedig_verif))]
 #[cfg(feature = "packet_capture")]
 pub(crate) type UdpSocket = crate::capture::socket::CapturedUdpSocket;
+#[cfg(not(gamedig_verif))]
 #[cfg(feature = "packet_capture")]
 pub(crate) type TcpSocket = crate::capture::socket::CapturedTcpSocket;
+
+#[cfg(gamedig_verif)]
+pub type UdpSocket = crate::verif_hook::VerifUdpSocket;
+#[cfg(gamedig_verif)]
+pub type TcpSocket = crate::verif_hook::VerifTcpSocket;
 
 #[cfg(test)]
 mod tests {
